@@ -530,7 +530,14 @@ func (d decoder) nameLabels(s *cryptobyte.String) ([]string, error) {
 		if len(name) == 0 {
 			break
 		}
-		labels = append(labels, string(name))
+		label := string(name)
+		if strings.ContainsAny(label, `.\`) {
+			// A dot inside a label is not a label separator: escape it as in
+			// the presentation format (RFC 1035, Section 5.1), so that the
+			// name cannot be mistaken for another one.
+			label = strings.NewReplacer(`\`, `\\`, `.`, `\.`).Replace(label)
+		}
+		labels = append(labels, label)
 	}
 	return labels, nil
 }
